@@ -371,3 +371,16 @@ def c13(prop, tier):
                         "registered gRPC methods are read from the real registration code; a method the specification does not list is treated as mutating",
                         "only the authentication decision is compared (401 / Unauthenticated / rejected handshake vs anything else); LDAP is not exercised (no server offline)"],
                        "tlc Auth.tla + vh auth (real binary)")
+
+
+@check("C09")
+def c09(prop, tier):
+    models = [
+        ("Restart", "Restart.tla", "Restart_dedup.cfg", "all populations of <= 4 files over 3 keys x 3 sizes (duplicates included) x max_size 1..6 blocks: the loader (Lru.tla's Add, oldest first) leaves exactly the maximal most-recent suffix that fits; index order = access-time order; directory = index", "rs"),
+    ]
+    drivers = [("restart", ["restart", "-cases", "{rs}", "-tier", "{tier}", "-seed", "{seed}"])]
+    return multi_check(prop, tier, models, drivers,
+                       ["directories are produced by an independent writer of the published v2 format (and of the two older layouts), access times are set with os.Chtimes",
+                        "abstract sizes are blocks of 4 KiB; kinds, layouts, file-name suffixes and the storage mode after the restart are drawn at random per case",
+                        "lost+found / .DS_Store handling is exercised by the repository's own tests only"],
+                       "tlc Restart.tla + vh restart")
